@@ -43,7 +43,8 @@ template <class X> Str do_ops(const Str& a, const Str& b, unsigned mask, int fla
     { UriBox<X> C; C.parse(a); int rc; { LibScope ls; rc = X::NormalizeSyntax(&C.u); } Str t; C.str(&t); out += fmt("normalize-plain rc=%d text=%s;", rc, escv(t).c_str()); }
     { int req = -1, rc; { LibScope ls; rc = X::ToStringCharsRequired(&A.u, &req); }
       if (rc == 0 && req >= 0) { typedef typename X::Char Char; static const int CAPS[] = {INT_MAX, INT_MAX / 2, INT_MAX / 4 + 1, INT_MAX / 4, 1 << 20};
-          Char* o = (Char*)reserve_block((size_t)INT_MAX * sizeof(Char));
+          static const bool both = reserve_block((size_t)INT_MAX * sizeof(char)) && reserve_block((size_t)INT_MAX * sizeof(wchar_t));   // same fields for both APIs or for none
+          Char* o = both ? (Char*)reserve_block((size_t)INT_MAX * sizeof(Char)) : nullptr;
           if (o) for (int cap : CAPS) { int wr = -7; o[0] = 0; { LibScope ls; rc = X::ToString(o, &A.u, cap, &wr); } out += fmt("tostring-cap%d rc=%d written=%d len=%zu;", cap, rc, wr, rc == 0 ? xstrlen<X>(o) : (size_t)0); } } }
     { UriBox<X> C; C.parse(a); int rc = C.make_owner(); Str t; C.str(&t); out += fmt("makeowner rc=%d text=%s;", rc, escv(t).c_str()); rc = C.normalize(mask); C.str(&t); out += fmt("normalize-owned rc=%d text=%s;", rc, escv(t).c_str()); }
     { int rc = A.normalize(mask); Str t; A.str(&t); unsigned m2; { LibScope ls; m2 = X::NormalizeSyntaxMaskRequired(&A.u); } out += fmt("normalize rc=%d text=%s mask-after=0x%x;", rc, escv(t).c_str(), m2); }
